@@ -434,6 +434,8 @@ def replay_checkinit(base, chk):
 
 def run(chk):
     prog, base = setup(chk)
+    from .common import state_shape
+    state_shape(chk, prog)
     API = [n for n, f in prog.funcs.items() if not f.get("external") and f.get("exported") and (
         n.startswith("(*filippo.io/edwards25519.Point).") or n.startswith("(*filippo.io/edwards25519.Scalar).") or n.startswith("(*filippo.io/edwards25519/field.Element)."))]
     ct_roots = sorted(n for n in API if "VarTime" not in n)
